@@ -269,11 +269,16 @@ bool matrix<T>::load(std::istream &in)
   if (!(in >> rs))
     return false;
 
-  decltype(data_) v(cs * rs);
+  // The sizes read from the stream aren't trusted for an up-front allocation.
+  decltype(data_) v;
 
-  for (auto &e : v)
+  for (decltype(cs) n(cs * rs), i(0); i < n; ++i)
+  {
+    T e;
     if (!(in >> e))
       return false;
+    v.push_back(e);
+  }
 
   cols_ = cs;
   data_ = v;
